@@ -187,7 +187,16 @@ func FuncBuilder(env *Zlisp, name string,
 	// minimal sanity check that we return the number of arguments
 	// on the stack that are declared
 	if len(body) == 0 {
-		for range retHash.KeyOrder {
+		// a call leaves exactly one value: nil, or, as (return a b)
+		// does for several values, one array of them.
+		nret := len(retHash.KeyOrder)
+		if nret > 1 {
+			gen.AddInstruction(PushInstr{SexpMarker})
+			for range retHash.KeyOrder {
+				gen.AddInstruction(PushInstr{expr: SexpNull})
+			}
+			gen.AddInstruction(VectorizeInstr(0))
+		} else {
 			gen.AddInstruction(PushInstr{expr: SexpNull})
 		}
 	}
